@@ -427,3 +427,18 @@ Proof.
   - intros. rewrite dom_tab_ref by auto. apply dom_ref_correct.
   - intros. apply reachable_ref_correct.
 Qed.
+
+(* the table of can_reach answers used by the checks *)
+Theorem reach_rows_correct g u v : u < length g -> v < length g ->
+  (In v (nth u (reach_rows g) []) <-> reachable_plus g u v).
+Proof.
+  intros Hu Hv. unfold reach_rows. cbv zeta. rewrite nth_map_seq by auto.
+  rewrite filter_In, existsb_exists, <- reach_plus_ref_correct.
+  unfold reach_plus_ref. rewrite existsb_exists. split.
+  - intros [_ [s [Hs Hm]]]. exists s. split; auto.
+    assert (s < length g) by (apply succs_edge in Hs; apply Hs).
+    rewrite nth_map_seq in Hm by auto. exact Hm.
+  - intros [s [Hs Hm]]. split; [apply in_seq; lia|]. exists s. split; auto.
+    assert (s < length g) by (apply succs_edge in Hs; apply Hs).
+    rewrite nth_map_seq by auto. exact Hm.
+Qed.
